@@ -250,6 +250,12 @@ class RemoveComponent(FnContract):
         for i, c in enumerate(derived):
             link = PObj('ComponentLink')
             link.methods['get_from_ids'] = (lambda I, s, i=i: _SymMembers(everything, dep[i]))
+            # ComponentLink.__contains__ is "one of the inputs, or the target"; the target of the link stored under an attribute may be any
+            # attribute (one expression object can be registered under two names), so it is an arbitrary relation too - what an
+            # attribute *depends on* are the inputs only
+            tgt = [z3.Bool('link_of_d%d_targets_%s' % (i, c2.fields['name'])) for c2 in everything]
+            link.methods['__contains__'] = (lambda I, s, c, i=i, tgt=tgt: S.Or(next((f for u, f in zip(everything, dep[i]) if u is c), False),
+                                                                              next((f for u, f in zip(everything, tgt) if u is c), False)))
             comps[c] = PObj('DerivedComponent', fields={'link': link})
         events = []
         hub = PObj('Hub', methods={'broadcast': lambda I, s, m: events.append(m), '__bool__': lambda I, s: True}) if cfg['hub'] else None
